@@ -38,7 +38,8 @@ from sympy import Float
 import numpy as np
 
 # values of the documented functions that sympy cannot evaluate itself, for calls on purely numeric arguments
-_numeric_funcs = {'sigmoid': lambda x: 1.0 / (1.0 + np.exp(-x)), 'absv': abs, 'maxi': max, 'mini': min}
+_numeric_funcs = {'sigmoid': lambda x: 1.0 / (1.0 + np.exp(-x)), 'absv': abs, 'maxi': max, 'mini': min,
+                  'arctan': np.arctan, 'arcsin': np.arcsin, 'arccos': np.arccos}
 
 # meta infos
 __author__ = "Richard Gast"
